@@ -14,7 +14,7 @@ def run(run):
     run.obligations_for(["Csvq.Props.C01"])
     csvq = run.build_csvq()
     env = {"VERIF_CSVQ": str(csvq)} if csvq else {}
-    run.stream("c01", 150 if q else 4000, env=env, timeout=3000)
+    run.stream("c01", 400 if q else 4000, env=env, timeout=3000)
     if not q:
         for k in range(1, 3):
             run.stream("c01", 2000, seed_offset=k, env=env, timeout=3000)
